@@ -1,4 +1,4 @@
 From Coq Require Import Extraction ExtrOcamlBasic.
 From LT Require Import CodecModel.
 Extraction "model.ml" encode62 decode62 strtoul_full export_vcard import_vcard export_vsecret import_vsecret
-  export_tcard import_tcard export_tsecret import_tsecret export_tstack import_tstack export_tstacksecret import_tstacksecret export_vstack import_vstack export_vstacksecret import_vstacksecret.
+  export_tcard import_tcard export_tsecret import_tsecret export_tstack import_tstack export_tstacksecret import_tstacksecret export_pubkey import_pubkey export_vstack import_vstack export_vstacksecret import_vstacksecret.
